@@ -142,14 +142,16 @@ def check_proofs(cfg, tier, log):
 # ----------------------------------------------------------------- harness
 
 def build_harness(cfg, log):
-    lock_src = "/repo/Cargo.lock"
-    lock_dst = os.path.join(HARNESS, "Cargo.lock")
+    """each harness crate is standalone (own `[workspace]` table and Cargo.lock copied from
+    /repo/Cargo.lock) so that one crate can never break another's build"""
+    crate = os.path.join(HARNESS, cfg["harness_pkg"])
+    lock_dst = os.path.join(crate, "Cargo.lock")
     if not os.path.exists(lock_dst):
         import shutil
-        shutil.copy(lock_src, lock_dst)
-    cmd = ["cargo", "build", "--release", "--offline", "-p", cfg["harness_pkg"], "--bin", cfg["harness_bin"]]
-    rc, out = sh(cmd, cwd=HARNESS, timeout=3000, env=env_offline(cfg.get("hooks", False)))
-    log.append("$ %s -> rc=%d\n%s" % (" ".join(cmd), rc, out[-3000:]))
+        shutil.copy("/repo/Cargo.lock", lock_dst)
+    cmd = ["cargo", "build", "--release", "--offline", "--bin", cfg["harness_bin"]]
+    rc, out = sh(cmd, cwd=crate, timeout=3000, env=env_offline(cfg.get("hooks", False)))
+    log.append("$ (cd %s) %s -> rc=%d\n%s" % (crate, " ".join(cmd), rc, out[-3000:]))
     return rc == 0, out
 
 
